@@ -67,15 +67,21 @@ PROPS = {
             'system interface that records the installed disposition per signal; a signal ignored on entry can be neither '
             'trapped nor reset without override; failing calls change nothing; the pending flag is set by a catch and a take '
             'returns the state iff it was set and clears it. Because every operation preserves the invariant from every '
-            'state, it holds after every sequence of operations (induction over histories), for every signal. Not decided: '
-            'TrapSet-level dispatch (KILL/STOP refusal, iteration over all signals), and WHEN traps run (command boundary, '
-            'interrupted wait): that is scheduling of the async read-eval loop.'),
+            'state, it holds after every sequence of operations (induction over histories), for every signal. On the table '
+            '(yash-env/src/trap.rs: TrapSet::set_action_impl, set_internal_disposition, the six enable_/disable_internal_disposition* '
+            'functions, catch_signal, take_signal_if_caught) the same invariant is proved for ALL signals at once (tinv), '
+            'SIGKILL and SIGSTOP are refused before anything is touched, shell-internal changes never alter a user action, a catch '
+            'sets and a take clears the pending flag of exactly the named signal. Not decided: TrapSet::enter_subshell and '
+            'take_caught_signal (iteration over the map with closures; their per-record step GrandState::enter_subshell / '
+            'handle_if_caught is proved), clear_parent_states (assumed), and WHEN traps run (command boundary, interrupted wait): '
+            'that is scheduling of the async read-eval loop.'),
         'trusted_base': ['Verus 0.2026.09.13 + Z3', 'vstd model of map entries (hash_map::Entry, used in place of btree_map::Entry)',
                          '/verif/tools/vextract.py'],
         'assumptions': [
             'SignalSystem is replaced by a synchronous model trait whose set_disposition takes &mut self, returns the previous disposition and installs the new one for that signal only (assumed contract of the OS side)',
             'await points are dropped: awaited futures complete immediately and nothing else runs in between',
-            'btree_map::Entry has the same contract as hash_map::Entry (vstd specifies only the latter)',
+            'btree_map::Entry has the same contract as hash_map::Entry (vstd specifies only the latter); the table field BTreeMap<Condition, GrandState> is checked as a HashMap (entry/get_mut only); get_mut has an assumed contract; Condition obeys the hash-map key model',
+            'TrapSet::clear_parent_states (a for loop over values_mut) is assumed to clear every parent state and nothing else',
             'derived PartialEq is structural equality and derived Ord follows declaration order (Default < Ignore < Catch)',
             'source::Location is an opaque placeholder type; thiserror\'s #[from] expansion is written out by hand',
         ],
@@ -168,22 +174,33 @@ PROPS = {
         ],
     },
     'C16': {
-        'v_units': ['variable'],
+        'v_units': ['variable', 'varset'],
         'k_units': [],
         'level': 'proof',
         'explanation': (
-            'One clause only: "a read-only variable is never modified ... by any means", at the level of one variable. Verus '
-            'proves on the real yash-env/src/variable/main.rs that VariableRefMut::assign_impl returns an error and changes '
-            'NOTHING when the variable is read-only and otherwise replaces exactly value and assignment location (returning the '
-            'old ones), that make_read_only never changes an existing read-only mark and touches nothing else, and that export '
-            'changes only the export flag. NOT decided: scoping and lifetime (VariableSet::get_or_new_impl, unset, '
-            'pop_context_impl, env_c_strings: labelled blocks, while-let over last_mut, drain/rposition/retain with closures are '
-            'outside Verus\'s subset, and the structure (HashMap<String, Vec<big struct>>) is out of CBMC\'s capacity as '
-            'measured on the smaller JobList), the refusal of unset on read-only variables, and which scope the interpreter picks.'),
+            'Scoping kernel of the variable store, as an unbounded inductive argument: Verus proves on the real '
+            'yash-env/src/variable.rs that get_or_new_impl (all three scopes), unset and push_context_impl preserve the '
+            'representation invariant (per-name stacks strictly sorted by context index, all below the number of contexts: the '
+            'module\'s own assert_normalized) from every state, and relate to the naive stack-of-maps model: the variable returned '
+            'by get_or_new is the visible one afterwards, lives in the context the scope designates (a regular context / the '
+            'topmost regular context / the topmost volatile context), starts from the variable visible within the reach of the '
+            'scope or a default one, leaves definitions in lower contexts untouched and only ever drops definitions held in '
+            'volatile contexts; get/get_scoped return the definition in the innermost context (lemma_visible_is_innermost) within '
+            'the reach of the scope; unset removes exactly the definitions in the contexts the scope reaches, returns the topmost, '
+            'and, when any of them is read-only, removes NOTHING and reports one of them ("a read-only variable is never ... unset '
+            'by any means"; the defect F4 fixed in 658e542 is what this contract excludes). Per variable (unit variable): '
+            'assign_impl refuses and changes nothing on a read-only variable, make_read_only is monotone, export touches only its '
+            'flag. NOT decided: pop_context_impl (HashMap::retain with a capturing closure), iteration and env_c_strings '
+            '(the environment of executed programs), ContextGuard, positional parameters, and everything the interpreter does '
+            'with these operations (which scope a built-in, function or assignment uses).'),
         'trusted_base': ['Verus 0.2026.09.13 + Z3', '/verif/tools/vextract.py'],
         'assumptions': [
             'source::Location is an opaque placeholder type',
-            'assumed specs: mem::replace, Option::replace',
+            'assumed specs: mem::replace, Option::replace, Option::filter, HashMap::get_mut, <[T]>::partition_point, '
+            's.iter().rposition(p) and v.drain(i..).next_back() behind helper functions (rewrite rules iter-rposition-to-helper, '
+            'drain-from-next-back-to-helper), String obeys the hash-map key model, derived Clone/Default/PartialEq are structural',
+            'a Vec holds at most usize::MAX elements (precondition on the context stack)',
+            'the labeled block of get_or_new_impl is checked as a one-pass labeled loop (rewrite rule labeled-block-to-loop)',
         ],
     },
     'C20': {
